@@ -119,11 +119,17 @@ Section Validator.
     let e := cell_at s c in
     let its := state_items s in
     match e_kind e with
-    | KError => true
+    | KError =>
+        (* the driver's reduce reads the goto cell's target WITHOUT looking at its kind: an error cell in a
+           nonterminal column must not carry a target *)
+        Nat.leb (nterm_count g) c || match e_arg e with None => true | Some _ => false end
     | KShift | KShiftErr =>
         match e_arg e with
         | None => false
         | Some s' =>
+            (* shift_error pushes the error token's value and does not consume the current term:
+               it is justified in the error symbol's column only *)
+            (negb (kind_eqb (e_kind e) KShiftErr) || Nat.eqb c (col_of_term (err_idx g))) &&
             Nat.ltb s' (length sts) && negb (Nat.eqb s' 0) &&
             (* the column is that of a real symbol x, and every item of s' with dot > 0 is an advanced item of s over x *)
             forallb (fun j =>
